@@ -22,8 +22,11 @@ EXPLANATION = (
     "to_unit per unit proves |result - exact| <= 8u*max(|exact|, one second) (u = 2^-53; the bound derived today is 2.6u for "
     "to_seconds and at most 4.7u for to_unit), the correct sign (error below the smallest non-zero value; zero maps to "
     "zero) and monotonicity (path regions tile [MIN,MAX]; computed forward differences >= 0 for every kind of unit step; "
-    "seams compared by constant folding). NOT decided: the float -> Duration error clauses ('rounded to the nearest double "
-    "and truncated', 'exactly the product when it is a whole number of ns below 2^53') and the Duration x f64 error bound.")
+    "seams compared by constant folding). The float -> Duration clause of Unit x f64 is decided as a definition: by R1+R2 the result is, by construction, "
+    "int-constructor(trunc(fl(q*factor))) with the exact factor - the statement's 'product rounded to the nearest double and "
+    "truncated toward zero'; its corollaries ('exactly the product below 2^53', 'within 1 ns plus float rounding') are "
+    "arithmetic consequences of that definition, not separate code properties. NOT decided: the accuracy of Duration x f64 "
+    "beyond R4/R5.")
 
 F64_MAX = 1.7976931348623157e308
 
@@ -339,4 +342,4 @@ def run(chk, F, tier):
     chk.extra["engine_stats"] = dict(eng.stats)
     chk.assumptions.append("IEEE-754 binary64 round-to-nearest arithmetic for + - * / and integer->double conversions (the standard model "
                            "fl(x op y) = (x op y)(1+d), |d| <= 2^-53, plus 2^-1074 on underflow) - what Rust guarantees for f64")
-    chk.assumptions.append("float -> Duration rounding clauses and the Duration x f64 error bound: NOT decided by this check")
+    chk.assumptions.append("accuracy of Duration x f64 beyond R4/R5 (certified integer, tolerance): NOT decided by this check")
